@@ -1104,6 +1104,10 @@ def irwin_hall_cdf(x, n):
 		The cdf of ``x``.
 	"""
 
+	if np.ndim(x) > 0:
+		# Array argument: evaluate elementwise.
+		return np.array([irwin_hall_cdf(xi, n) for xi in np.ravel(x)], dtype=float).reshape(np.shape(x))
+
 	F = 0
 	for k in range(int(np.floor(x)) + 1):
 		F += ((-1) ** k) * comb(n, k) * (x - k) ** n
@@ -1144,6 +1148,9 @@ def sum_of_continuous_uniforms_distribution(n, lo=0, hi=1):
 		def _cdf(self, x):
 			# P(X <= x) = P(Y <= (y - n * lo) / (hi - lo)), where Y is the sum of
 			# n U[0,1] r.v.s and therefore has an Irwin-Hall distribution.
+			if np.ndim(x) > 0:
+				# Array argument (as passed by scipy): evaluate elementwise.
+				return np.array([self._cdf(xi) for xi in np.ravel(x)], dtype=float).reshape(np.shape(x))
 			if x < n * lo:
 				return 0
 			elif x > n * hi:
